@@ -425,7 +425,7 @@ def gen_fit_inputs(rng, n, max_N=(6, 4, 3), combos=None):
         else:
             continue
         hooks = rng.choice([None, None, {"solver_nbatch": 2}])
-        if k % 4 == 1:
+        if rng.random() < 0.3:
             # "remainder atom batch" stream: an odd number of atoms (5 or 7) and 2 or 3 atom batches, so that the last
             # atom batch is SHORTER than the others (5 = 2+2+1, 7 = 3+3+1 / 2+2+2+1)
             for _ in range(200):
